@@ -352,7 +352,7 @@ func PlanRun(seed, index uint64, tierName string) *Plan {
 			if reps > 10*t.Reps {
 				reps = 10 * t.Reps
 			}
-			if cost <= 25 && r.Chance(8) {
+			if cost <= 25 && r.Chance(2) {
 				reps = 500 // a long-lived caller: counters, fixed-size tables and pools that only matter after hundreds of calls
 			}
 		} else if Cat.Cost != nil {
